@@ -304,6 +304,7 @@ func writeSchedules(run *vk.Run, id *age.X25519Identity, seed int64) {
 		}
 	}
 	run.Add("write_schedules_from_tlc", n)
+	run.Sample(map[string]interface{}{"generator": "write-schedules", "tlc_case": lines[len(lines)/2]})
 }
 
 // readSchedules: TLC-simulated delivery/read schedules replayed on the real reader.
@@ -396,6 +397,7 @@ func readSchedules(run *vk.Run, seed int64) {
 		n++
 	}
 	run.Add("read_schedules_from_tlc", n)
+	run.Sample(map[string]interface{}{"generator": "read-schedules", "tlc_case": lines[len(lines)/2]})
 }
 
 func offMapFile(w *strm.World, fs []strm.Frame) int {
